@@ -60,14 +60,43 @@ PHASE_MAP_CTORS = {"DAGCode", "DAGCode.from_phases_list"}
 IDENTIFYING_ATTRS = {"id", "name", "identifier"}
 
 
-def key_is_total(call):
+def key_is_total(call, scope=None):
     """Does the key= of this sorted() call tell any two items apart?  Accepted:
     no key; the item's name / id / identifier; the first component of an item
     (a dict key from .items()); str / repr of the item; a tuple holding one of
-    these or the whole item."""
+    these or the whole item.  A key that is the name of a function defined in
+    *scope* (the enclosing function's node) is looked at like a lambda."""
     key = next((k.value for k in call.keywords if k.arg == "key"), None)
     if key is None:
         return True
+    if isinstance(key, ast.Name) and scope is not None:
+        defs = [n for n in ast.walk(scope) if isinstance(n, ast.FunctionDef) and n.name == key.id]
+        if len(defs) == 1 and len(defs[0].args.args) == 1:
+            fd = defs[0]
+            p0 = fd.args.args[0].arg
+            # names unpacked from the item: `a, b = item` makes `a` the first component
+            first = {p0: "item"}
+            for s_ in fd.body:
+                if isinstance(s_, ast.Assign) and len(s_.targets) == 1 \
+                        and isinstance(s_.targets[0], ast.Tuple) and dotted(s_.value) == p0 \
+                        and s_.targets[0].elts and isinstance(s_.targets[0].elts[0], ast.Name):
+                    first[s_.targets[0].elts[0].id] = "first"
+            rets = [r.value for r in ast.walk(fd) if isinstance(r, ast.Return) and r.value is not None]
+
+            def total_named(x):
+                if isinstance(x, ast.Name) and x.id in first:
+                    return True
+                if isinstance(x, ast.Subscript) and dotted(x.value) == p0 \
+                        and isinstance(x.slice, ast.Constant) and x.slice.value == 0:
+                    return True
+                if isinstance(x, ast.Attribute) and dotted(x.value) == p0 and x.attr in IDENTIFYING_ATTRS:
+                    return True
+                if isinstance(x, ast.Call) and dotted(x.func) in ("str", "repr") and len(x.args) == 1:
+                    return total_named(x.args[0])
+                if isinstance(x, ast.Tuple):
+                    return any(total_named(y) for y in x.elts)
+                return False
+            return bool(rets) and all(total_named(r) for r in rets)
     d = dotted(key)
     if d in ("str", "repr"):
         return True
@@ -297,7 +326,7 @@ class Taint:
             if isinstance(fn, ast.Name):
                 if fn.id in SET_CTORS:
                     return True
-                if fn.id in ("sorted", "natsorted") and not key_is_total(e):
+                if fn.id in ("sorted", "natsorted") and not key_is_total(e, getattr(f, "node", None)):
                     # a key with ties leaves tied items in the order they came in
                     return any(self.is_tainted(a, f, tainted) for a in e.args)
                 if fn.id in CLEAN_FUNCS:
@@ -589,6 +618,33 @@ class Taint:
                 return False
         return True
 
+    def _only_membership(self, call, arg, f):
+        """The argument lands in a parameter of a method of the same class that is only
+        ever asked `x in <parameter>`: its order is of no consequence there."""
+        if not (isinstance(call.func, ast.Attribute) and dotted(call.func.value) == "self"
+                and f.cls is not None):
+            return False
+        callee = self.P.method(f.cls, call.func.attr)
+        if callee is None:
+            return False
+        pname = None
+        for k in call.keywords:
+            if k.value is arg:
+                pname = k.arg
+        if pname is None:
+            for i, a_ in enumerate(call.args):
+                if a_ is arg and i + 1 < len(callee.params):
+                    pname = callee.params[i + 1]
+        if pname is None:
+            return False
+        uses = [x for x in ast.walk(callee.node) if isinstance(x, ast.Name) and x.id == pname
+                and isinstance(x.ctx, ast.Load)]
+        if not uses:
+            return False
+        member = {id(c.comparators[0]) for c in ast.walk(callee.node) if isinstance(c, ast.Compare)
+                  and len(c.ops) == 1 and isinstance(c.ops[0], (ast.In, ast.NotIn))}
+        return all(id(u) in member for u in uses)
+
     def _scan(self, f, t):
         for n in ast.walk(f.node):
             if not self._owner(f, n):
@@ -607,6 +663,8 @@ class Taint:
                 if lab:
                     args = list(n.args) + [k.value for k in n.keywords]
                     for a in args:
+                        if self._only_membership(n, a, f):
+                            continue
                         if self.is_tainted(a, f, t) and not self._is_setlike_arg(a):
                             self.findings.append(Finding(
                                 f, n, f"order-tainted value {norm(a, 60)} passed to", lab))
